@@ -191,6 +191,10 @@ Definition dispatch (req : list Z) : list Z :=
   | 110 :: t => run (k <- dZ ;; f <- dfmt ;; cnt <- dZ ;; l <- dlist dZ ;; dret (k, f, cnt, l))
                 (fun '(k, f, cnt, l) => eoutcome (fun p => efmt (fst p) ++ ewres (fst p) (snd p))
                    (match k with 0 => fxp_sum f cnt l Trunc Saturate | 1 => fxp_cumsum f cnt l Trunc Saturate | 3 => fxp_cumprod f l Trunc Saturate | _ => fxp_prod f cnt l Trunc Saturate end)) t
+  (* 112: sum (kind 0) / prod (kind 2) of one slice into a target format: kind f count slice ft r o *)
+  | 112 :: t => run (k <- dZ ;; f <- dfmt ;; cnt <- dZ ;; l <- dlist dZ ;; ft <- dfmt ;; r <- drmode ;; o <- domode ;; dret (k, f, cnt, l, ft, r, o))
+                (fun '(k, f, cnt, l, ft, r, o) => eoutcome (fun w => efmt ft ++ ewres ft w)
+                   (match k with 0 => fxp_sum_into f cnt l ft r o | _ => fxp_prod_into f cnt l ft r o end)) t
   | 111 :: t => run (fx <- dfmt ;; fy <- dfmt ;; xs <- dlist dZ ;; ys <- dlist dZ ;; dret (fx, fy, xs, ys))
                 (fun '(fx, fy, xs, ys) => eoutcome (fun p => efmt (fst p) ++ ewres (fst p) (snd p)) (fxp_dot fx fy xs ys Trunc Saturate)) t
   | _ => bad_request
